@@ -151,6 +151,11 @@ def eval_cases(pid, eval_module, check_term, coq_terms, shard_size=400, jobs=16,
             f.write("Definition R := Eval vm_compute in results (%s) cases.\nPrint R.\n" % check_term)
         shards.append((s, len(chunk), path))
     procs = []
+    try:  # be a good neighbour on a loaded machine (other checks/builders running): fewer parallel coqc
+        if os.getloadavg()[0] > 24:
+            jobs = min(jobs, 6)
+    except OSError:
+        pass
     results = {}
     logs = []
     ok = 0
